@@ -962,7 +962,12 @@ class _ClassBuilder:
             elif isinstance(item, property):
                 # Workaround for property `super()` shortcut (PY3-only).
                 # There is no universal way for other descriptors.
-                closure_cells = getattr(item.fget, "__closure__", None)
+                # Getter, setter and deleter each have their own closure.
+                closure_cells = [
+                    cell
+                    for func in (item.fget, item.fset, item.fdel)
+                    for cell in getattr(func, "__closure__", None) or ()
+                ]
             else:
                 closure_cells = getattr(item, "__closure__", None)
 
